@@ -13,7 +13,7 @@ from the implementation and fed to the model as an oracle; it is separately comp
 model's own expansion.
 """
 import os as _os
-STATIC = ["C15/Props", "C15/History"]
+STATIC = ["C15/Props", "C15/History", "C15/PropsHist"]
 import itertools
 import math
 import random
@@ -851,6 +851,10 @@ def main(run):
     run_samples(run, rng)
     run_models(run, rng)
     run_malformed(run, rng)
+    # extension streams (history == fresh, non-mutation, primitives of the density-matrix route, custom symbols, from_circuit);
+    # own generator so that the streams above are unchanged
+    from harness import c15_hist
+    c15_hist.main_sections(run, random.Random(run.seed * 7919 + 15))
     run.not_proved += ["negative integer powers (numpy matrix inverse) are outside the model",
                        "nested powers of one symbol such as (Y0**3)**2 are refused by SymbolicTerm.__init__ (AssertionError); the dense route handles them"]
     run.notes["historical"] = ("coq/theories/C15/History.v holds lemmas about the pre-repair code (factor order, sample parity, "
@@ -874,6 +878,11 @@ def static_obligations(run):
             for m in __import__("re").finditer(r"([A-Za-z_][\w.]*)\s*:", res[nm]):
                 if m.group(1) != "Axioms":
                     run.axioms.add(m.group(1))
+    if os.path.exists(os.path.join(vcore.THEORIES, "C15/PropsHist.v")):
+        ok2, res2 = vcore.static_assumptions("C15/PropsHist")
+        for nm in vcore.props_theorems("C15/PropsHist.v"):
+            run.oblige(nm, ok2 and nm in res2 and res2[nm].startswith("Closed"), "static theorem (coq/theories/C15/PropsHist.v)")
+        res = {**res, **res2}
     run.checker_cmds.append("make -C coq theories/C15/Props.vo ; coqc _build/assumptions/C15_Props_pa.v")
     run.notes["static_theorems"] = res
 
@@ -891,6 +900,8 @@ def replay(run, data):
         judge(run, B, B.flush())
     elif mech == "samples" and "form" in rp:
         run_samples(run, rng, only=(rp["nqubits"], parse_ast(rp["form"]), {str(k): int(v) for k, v in rp["freq"].items()}, rp.get("qubit_map")))
+    elif __import__("harness.c15_hist", fromlist=["replay"]).replay(run, data):
+        pass
     else:
         return main(run)
     return run.finish(level="proof", rule="replay of one recorded case")
